@@ -91,16 +91,25 @@ def translate():
     m = re.search(
         r"let target_pc = value as i64; let cur_pc = \(self \.try_current_target_pc\(\) "
         r"\.unwrap_or_else\(\|\| target_pc\.into\(\)\) \+ (\d+)\) \.as_i64\(\); "
-        r"let mut offset = target_pc - cur_pc; "
+        r"let mut offset = target_pc(?: - cur_pc|(\.wrapping_sub\(cur_pc\))); "
         r"if \((-?\d+)(\.\.=|\.\.)(-?\d+)\)\.contains\(&offset\) \{ if offset < 0 \{ offset \+= (\d+); \} offset as i64 \} "
         r"else if target_pc == (\d+) \{ 0 \} else \{ (?:self\.emit\(full_span, &\[((?:\d+(?:, )?)*)\]\)\?; )?return Err\(",
         bra,
     )
     if not m:
         raise ShapeError("instruction arm: branch computation has unrecognised shape: %s" % bra[:300])
-    plus, rlo, rop, rhi, fix, esc = int(m.group(1)), int(m.group(2)), m.group(3), int(m.group(4)), int(m.group(5)), int(m.group(6))
+    # C06 (program counter range fix): `target_pc.wrapping_sub(cur_pc)` and a wrapping `ProgramCounter + usize` no longer panic
+    sub_wraps = bool(m.group(2))
+    plus, rlo, rop, rhi, fix, esc = int(m.group(1)), int(m.group(3)), m.group(4), int(m.group(5)), int(m.group(6)), int(m.group(7))
     # bytes still emitted for a branch that is too far (none on older trees)
-    too_far_bytes = [int(x) for x in m.group(7).split(", ")] if m.group(7) else []
+    too_far_bytes = [int(x) for x in m.group(8).split(", ")] if m.group(8) else []
+    pcsrc = re.sub(r"\s+", " ", strip_comments(read("mos-core/src/codegen/program_counter.rs")))
+    if "fn add(self, rhs: usize) -> Self::Output { Self(self.0 + rhs) }" in pcsrc:
+        add_wraps = False
+    elif "fn add(self, rhs: usize) -> Self::Output { Self(self.0.wrapping_add(rhs)) }" in pcsrc:
+        add_wraps = True
+    else:
+        raise ShapeError("ProgramCounter + usize has unrecognised shape")
     rhi_incl = rhi if rop == "..=" else rhi - 1
     if not re.search(r"\} _ => value, \};", bra):
         raise ShapeError("instruction arm: non-branch value arm not `_ => value`")
@@ -140,6 +149,8 @@ def translate():
     out.append("Definition branch_hi : Z := (%d)%%Z." % rhi_incl)
     out.append("Definition branch_fix : Z := %d%%Z." % fix)
     out.append("Definition branch_escape_target : Z := %d%%Z." % esc)
+    out.append("Definition branch_add_wraps : bool := %s." % ("true" if add_wraps else "false"))
+    out.append("Definition branch_sub_wraps : bool := %s." % ("true" if sub_wraps else "false"))
     out.append("Definition invalid_instruction_byte : N := %d." % invalid_byte)
     out.append("Definition branch_too_far_bytes : list N := [%s]." % "; ".join(str(b) for b in too_far_bytes))
     out.append("Open Scope string_scope.")
